@@ -61,6 +61,8 @@ class FlowFields(ImageBatch):
         """
         # DataTensor.__new__() creates the tensor subclass given arguments:
         # data, dtype, device, requires_grad, pin_memory
+        if axes is None and isinstance(data, FlowFields):
+            axes = data.axes()
         if grid is None and isinstance(data, ImageBatch):
             grid = data.grids()
             data = data.tensor()
